@@ -290,9 +290,10 @@ Section Engine.
                   if ptr && on q_nullable_sum_panic then BPanic
                   else bmap (VUnion i) (rec (snd m) false x)
               end
-          | LRepr, UStringprefix, DString s =>
-              if ong qg_stringprefix_split then
-                (* strings.SplitN(s, "", 2): first character (ASCII modelled) and the rest *)
+          | LRepr, UStringprefix dl, DString s =>
+              if ong qg_stringprefix_split && match dl with [] => true | _ => false end then
+                (* generated code, delimiter "": strings.SplitN(s, "", 2) = first character (ASCII
+                   modelled) and the rest *)
                 match s with
                 | c :: (_ :: _) as rest =>
                     if c <? 128 then
@@ -304,11 +305,13 @@ Section Engine.
                 | _ => BErr EUnion
                 end
               else
-              match find_idx (fun m => is_prefix (m_disc (fst m)) s) ms with
+              (* repr.go AssignString: SplitN at the first delimiter and whole-discriminant comparison,
+                 or (no delimiter) HasPrefix in member order *)
+              match sp_parse dl ms s with
               | None => BErr EUnion
-              | Some (i, m) =>
+              | Some (i, m, rest) =>
                   if ptr && on q_nullable_sum_panic then BPanic
-                  else bmap (VUnion i) (rec (snd m) false (DString (drop (length (m_disc (fst m))) s)))
+                  else bmap (VUnion i) (rec (snd m) false (DString rest))
               end
           | _, _, _ => BErr EKind
           end
@@ -436,9 +439,9 @@ Section Engine.
                     else o
                 | _ => o
                 end
-            | UStringprefix =>
+            | UStringprefix dl =>
                 match str_of_ov o with
-                | Some s => OScalar (DString (m_disc (fst m) ++ s))
+                | Some s => OScalar (DString (m_disc (fst m) ++ dl ++ s))
                 | None => OErr false
                 end
             end
